@@ -251,6 +251,7 @@ TankStep(p, r, nd) ==
       want == Mul(N(p.dem[nd.name]), FromInt(r.t - p.t))
       tol == Add(Sci(1, -6), Mul(Sci(1, -8), Add(Abs(want), Add(Abs(v1[1]), Abs(v2[1])))))
   IN  RClose(want, dv, tol, Zero)
+TankArea(nd) == Mul(Pi4, Mul(N(nd.diam), N(nd.diam)))
 TankInit(r, nd) == Close(Level(r, nd), N(nd.init), Sci(1, -9), TolF)
 \* limits up to the volume of two seconds of the tank's flow (cylinder or volume curve)
 TankLimits(qprev, r, nd) ==      \* qprev: the largest net inflow magnitude reported so far
@@ -263,4 +264,45 @@ TankLimits(qprev, r, nd) ==      \* qprev: the largest net inflow magnitude repo
 NoDrainAtMin(r, nd) == Leq(Level(r, nd), Add(N(nd.minl), Sci(1, -6))) => Geq(N(r.dem[nd.name]), Neg(Qtol))
 NoFillAtMax(r, nd)  == Geq(Level(r, nd), Sub(N(nd.maxl), Sci(1, -6))) => Leq(N(r.dem[nd.name]), Qtol)
 
+\* ------------------------------------------------------------------ C05 conditional simple controls
+\* control c = [node, attr ("level"|"pressure"), rel (">"|"<"), thr, link (name), what ("status"|"setting"), val, prio]
+CondValue(r, c) == N(r.press[c.node])            \* tank level and junction pressure are both the reported pressure
+Margin == Sci(1, -6)
+CondTrue(r, c)  == IF c.rel = ">" THEN Gt(CondValue(r, c), Add(N(c.thr), Margin)) ELSE Lt(CondValue(r, c), Sub(N(c.thr), Margin))
+CondFalse(r, c) == IF c.rel = ">" THEN Lt(CondValue(r, c), Sub(N(c.thr), Margin)) ELSE Gt(CondValue(r, c), Add(N(c.thr), Margin))
+LinkRec(s, n) == s.links[CHOOSE i \in DOMAIN s.links : s.links[i].name = n]
+TankAtLimit(s, r, n) ==
+  LET nd == NodeRec(s, n) IN
+  nd.type = "T" /\ (Leq(Level(r, nd), Add(N(nd.minl), Sci(1, -3))) \/ Geq(Level(r, nd), Sub(N(nd.maxl), Sci(1, -3))))
+\* what may hold a link closed against a command to open: its own check valve, a pump's shut-off rule, an adjacent
+\* tank at a level limit, or being cut off from every source
+HeldClosed(s, r, l, reach) == (l.type = "pipe" /\ l.cv) \/ l.type \in {"headpump", "powerpump"}
+                              \/ TankAtLimit(s, r, l.a) \/ TankAtLimit(s, r, l.b) \/ IsolatedLink(s, reach, l)
+Obeyed(s, r, c, reach) ==
+  LET l == LinkRec(s, c.link) IN
+  IF c.what = "setting" THEN Close(N(r.setting[c.link]), N(c.val), Sci(1, -9), TolF)
+  ELSE IF c.val = 0 THEN r.status[c.link] = Closed
+  ELSE r.status[c.link] # Closed \/ HeldClosed(s, r, l, reach)
+Conflicts(c, d) == d.link = c.link /\ d.what = c.what /\ d.prio >= c.prio
+                   /\ (IF c.what = "setting" THEN ~Eq(N(d.val), N(c.val)) ELSE d.val # c.val)
+CtlConsistent(s, r, reach) ==        \* set of indices of violated controls
+  {i \in DOMAIN s.cctl :
+     LET c == s.cctl[i] IN
+     /\ CondTrue(r, c)
+     /\ ~(\E j \in DOMAIN s.cctl : j # i /\ ~CondFalse(r, s.cctl[j]) /\ Conflicts(c, s.cctl[j]))
+     /\ ~(\E j \in DOMAIN s.ctl : s.links[s.ctl[j].link].name = c.link)          \* a time control on the same link: open
+     /\ ~Obeyed(s, r, c, reach)}
+\* a tank-level threshold is met by a partial step, not overshot by a whole hydraulic step: when the condition of a
+\* level control turns from false to true between two solved rows, the level is within two seconds of flow of it
+NoOvershoot(s, p, r) ==
+  {i \in DOMAIN s.cctl :
+     LET c == s.cctl[i]  nd == NodeRec(s, c.node) IN
+     /\ c.attr = "level" /\ nd.vcurve = <<>>
+     /\ CondFalse(p, c) /\ CondTrue(r, c)
+     \* only a control whose action actually changes its link forces a step (firing without effect needs none)
+     /\ (IF c.what = "setting" THEN ~Close(N(p.setting[c.link]), N(c.val), Sci(1, -9), TolF)
+         ELSE IF c.val = 0 THEN p.status[c.link] # Closed
+         ELSE p.status[c.link] = Closed /\ r.status[c.link] # Closed)      \* held closed by an internal rule: no visible effect
+     /\ ~Leq(Mul(Abs(Sub(Level(r, nd), N(c.thr))), TankArea(nd)),
+             Add(Mul(FromInt(2), MaxD(Abs(N(p.dem[c.node])), Abs(N(r.dem[c.node])))), Sci(1, -5)))}
 =============================================================================
